@@ -293,6 +293,14 @@ func profileFor(prop string) Profile {
 		p.GcOn = true
 		p.Restart = 1
 		p.StableSizes = true
+	case "C04":
+		p.RenewW = 30
+		p.NameCount = 2
+		p.LeaseFocus = true
+		p.Invalid = 5
+		p.Ops = 60
+		p.Restart = 1
+		p.Foreign = 10
 	case "C10":
 		p.Restart = 8
 	case "C03":
